@@ -21,6 +21,12 @@ import numpy as np
 from .symarr import NotSymbolic, Sym, SymbolicBranch, SymEval, _opaque
 
 
+def _all_str(x):
+    if isinstance(x, str):
+        return True
+    return isinstance(x, (list, tuple)) and len(x) > 0 and all(_all_str(y) for y in x)
+
+
 class Raised(Exception):
     def __init__(self, cls):
         super().__init__(cls)
@@ -359,6 +365,8 @@ class _Expr(SymEval):
                 if np.asarray(args[0]).dtype == object:
                     raise NotSymbolic(f"{f.attr} of symbolic values")
                 return getattr(np, f.attr)(*args, **kw)
+            if f.attr in ("array", "asarray") and args and isinstance(args[0], (list, tuple)) and args[0] and _all_str(args[0]):
+                return _prog_call(np.array, args[0])  # an array of words, to be cut and converted later
             if f.attr in ("array", "asarray") and args and isinstance(args[0], np.ndarray):
                 # np.asarray hands back the very same array (no dtype change asked, or the same dtype): the result
                 # shares storage with the argument; np.array copies unless copy=False
@@ -376,12 +384,15 @@ class _Expr(SymEval):
                 if f.attr == "empty":
                     return np.full(args[0], np.nan) if dt in (float, np.float64, np.float32, "float") else np.zeros(args[0], dtype=dt if not isinstance(dt, str) else {"int": int, "float": float}.get(dt, float))
                 return getattr(np, f.attr)(args[0], dtype=dt if not isinstance(dt, str) else {"int": int, "float": float}.get(dt, float))
+            if f.attr == "full" and len(args) >= 2 and isinstance(args[1], (int, float)) and not isinstance(args[1], bool):
+                return np.full(args[0], float(args[1]) if kw.get("dtype") in (None, float) else args[1])
             PURE_NUMERIC = ("tril_indices", "triu_indices", "argsort", "sort", "unique", "arange", "cumsum", "where", "sum", "max", "min", "amax", "amin", "abs", "absolute", "sqrt", "prod", "any", "all", "nonzero", "argmax", "argmin", "diff", "lexsort", "searchsorted", "count_nonzero", "sign", "floor", "ceil")
             if f.attr in PURE_NUMERIC and args and all(not isinstance(a, (Sym, Rec)) and not (isinstance(a, np.ndarray) and a.dtype == object) and not (isinstance(a, (list, tuple)) and any(isinstance(x, (Sym, Rec)) for x in a)) for a in args):
                 return _prog_call(getattr(np, f.attr), *args, **kw)
             if f.attr in ("repeat", "tile") and args:
                 a0 = np.asarray(args[0], dtype=object) if not isinstance(args[0], np.ndarray) else args[0]
                 return getattr(np, f.attr)(a0, *args[1:], **kw)
+            self.__dict__["_preargs"] = (n, args, {k: v for k, v in kw.items() if k is not None})
             return super().e_Call(n)
         if isinstance(f, ast.Attribute) and isinstance(f.value, ast.Name) and f.value.id not in self.env and (f.value.id, f.attr) in (("attrs", "asdict"), ("attr", "asdict")):
             a0 = self.eval(n.args[0])
